@@ -8,11 +8,11 @@ SPEC = os.path.join(os.path.dirname(os.path.dirname(os.path.abspath(__file__))),
 
 INVS = ["TypeOK", "ReadBackIsHistory", "CountBound", "SurvivorsAreRecentSuffix", "NoRetentionWhenUnlimited",
         "NoRotationWhenOne", "ForeignUntouched", "SizeBound", "GzFaithful", "DaysApart", "NameCarriesDay",
-        "FlushedRecoverable", "NoDuplicates"]
+        "FlushedRecoverable", "NoDuplicates", "FatalDurableInv"]
 PROPS = ["OrigRemovedOnlyAfterGzClosed", "NamesNeverReused"]
 
 BASE = dict(BufCap=3, Ls="{0, 3}", Ns="{0, 2}", Opts="{0, 1, 2, 4, 7}", Sizes="{1, 2, 4}", MaxSends=4, MaxDay=1,
-            MaxRestarts=1, MaxCrash=0, MaxFault=0, MaxGzWrites=1, Ticks="FALSE")
+            MaxRestarts=1, MaxCrash=0, MaxFault=0, MaxGzWrites=1, Ticks="FALSE", Fatal="FALSE", FlushOnFatal="TRUE")
 
 CFGS = {
     # history: all trigger kinds, sizes below / at / above the limit and above the buffer, restarts, two days
@@ -31,6 +31,9 @@ CFGS = {
     ("C09", "quick"): dict(Ls="{0, 3}", Ns="{0, 1, 2}", Opts="{2, 3, 6}", Sizes="{1, 2}", MaxSends=4, MaxDay=2, MaxRestarts=2),
     ("C09", "thorough"): dict(Ls="{0, 3}", Ns="{0, 1, 2, 3}", Opts="{2, 3, 6, 7}", Sizes="{1, 2}", MaxSends=5, MaxDay=2, MaxRestarts=2, Ticks="TRUE"),
     # crash at every step and one fault
+    # fatal message: any history, then the fatal one, flush, abort
+    ("C11", "quick"): dict(Ls="{0, 3}", Ns="{0, 1, 2}", Opts="{0, 1, 4}", Sizes="{1, 2, 4}", MaxSends=3, Fatal="TRUE"),
+    ("C11", "thorough"): dict(Ls="{0, 3}", Ns="{0, 1, 2, 3}", Opts="{0, 1, 2, 4, 7}", Sizes="{1, 2, 4}", MaxSends=4, Fatal="TRUE"),
     ("C10", "quick"): dict(Ls="{3}", Ns="{0, 2, 3}", Opts="{0, 4, 7}", Sizes="{1, 2}", MaxSends=3, MaxCrash=1, MaxFault=1),
     ("C10", "thorough"): dict(Ls="{0, 3}", Ns="{0, 2, 3}", Opts="{0, 1, 2, 4, 7}", Sizes="{1, 2, 4}", MaxSends=4, MaxCrash=1, MaxFault=1, MaxGzWrites=2),
 }
@@ -57,6 +60,9 @@ def main():
     for w in ["W_NeverRotates", "W_NeverRetires", "W_NeverCompresses", "W_NeverLeftover", "W_NeverFaulted",
               "W_NeverTwoDays", "W_NeverDirectWrite"]:
         open(os.path.join(SPEC, f"MC_Rot_{w}.cfg"), "w").write(body(c, [w], []))
+    c = dict(BASE)
+    c.update(dict(Ls="{0}", Ns="{0}", Opts="{0}", Sizes="{1}", MaxSends=1, Fatal="TRUE", FlushOnFatal="FALSE"))
+    open(os.path.join(SPEC, "MC_Rot_W_FatalNoFlush.cfg"), "w").write(body(c, ["FatalDurableInv"], []))
 
 
 if __name__ == "__main__":
